@@ -179,18 +179,10 @@ Definition sat (c : comparison) (o : cop) : bool :=
 Inductive ftype := TInt | TDbl | TStr | TBool | TUuid.
 Record field := mkf { f_name : bytes; f_type : ftype; f_col : N }.
 Record index := mkix { ix_cols : list bytes; ix_unique : bool }.
-(* facts about the code as it currently is, probed on the real engine on every run:
-   fl_nz     the float key encoding distinguishes -0.0 from +0.0
-   fl_strict structValueToSqlValue rejects non-integral / out-of-range numbers for INTEGER fields
-             (the repair proposed in fixes/C19-integer-fields-reject-non-integral.diff)
-   fl_uf     the unique check (and the emptiness test of CREATE UNIQUE INDEX) reads only the FIRST
-             key under the prefix, a tombstone there reading as "not found" (property C12) *)
-Record flags := mkfl { fl_nz : bool; fl_strict : bool; fl_uf : bool }.
+(* s_nz: the float key encoding distinguishes -0.0 from +0.0 (a fact about the key encoder of
+   property C15, probed on the real encoder on every run) *)
 Record schema := mksch { s_id : bytes; s_fields : list field; s_indexes : list index; s_next : N;
-                         s_fl : flags }.
-Definition s_nz (sch : schema) : bool := fl_nz (s_fl sch).
-Definition s_strict (sch : schema) : bool := fl_strict (s_fl sch).
-Definition s_uf (sch : schema) : bool := fl_uf (s_fl sch).
+                         s_nz : bool }.
 
 Definition find_field (sch : schema) (name : bytes) : option field :=
   find (fun f => bytes_eqb (f_name f) name) (s_fields sch).
@@ -207,15 +199,16 @@ Definition max_varchar : N := 512.
 
 Definition int_exactb (n : num) : bool := num_integral n && fits_i64 (num_trunc n).
 
-(* structValueToSqlValue *)
-Definition conv_field (strict : bool) (t : ftype) (v : jv) : res cv :=
+(* structValueToSqlValue; an INTEGER field accepts only numbers with an exact int64 representation
+   (f == Trunc(f) and -2^63 <= f < 2^63) *)
+Definition conv_field (t : ftype) (v : jv) : res cv :=
   match v with
   | JNull => Ok CNull
   | _ =>
       match t, v with
       | TStr, JStr s => Ok (CStr s)
       | TUuid, JStr s => match uuid_parse s with Some b => Ok (CBlob b) | None => Err EUnexpected end
-      | TInt, JNum n => if strict && negb (int_exactb n) then Err EUnexpected else Ok (CInt (conv_i64 n))
+      | TInt, JNum n => if int_exactb n then Ok (CInt (conv_i64 n)) else Err EUnexpected
       | TDbl, JNum n => Ok (CDbl n)
       | TBool, JBool b => Ok (CBool b)
       | _, _ => Err EUnexpected
@@ -240,15 +233,15 @@ Fixpoint row_get (r : row) (c : N) : cv :=
 Definition cv_too_long (v : cv) : bool := match v with CStr s => max_varchar <? len s | _ => false end.
 
 (* generateRowSpecForDocument for the typed fields (+ the VARCHAR(512) limit of encodeRowValue) *)
-Fixpoint gen_row (strict : bool) (fs : list field) (doc : jv) : res row :=
+Fixpoint gen_row (fs : list field) (doc : jv) : res row :=
   match fs with
   | [] => Ok []
   | f :: r =>
-      do rest <- gen_row strict r doc;
+      do rest <- gen_row r doc;
       match doc_field doc (f_name f) with
       | None => Ok rest
       | Some v =>
-          do c <- conv_field strict (f_type f) v;
+          do c <- conv_field (f_type f) v;
           match c with
           | CNull => Ok rest
           | CStr s => if max_varchar <? len s then Err EMaxLen else Ok ((f_col f, c) :: rest)
@@ -328,7 +321,7 @@ Definition conv_group_with kf (sch : schema) (g : list cmpx) : res (list ccmp) :
   match g with [] => Err EArgs | _ => mapres (conv_cmp_with kf sch) g end.
 Definition conv_groups_with kf (sch : schema) (gs : list (list cmpx)) : res (list (list ccmp)) :=
   mapres (conv_group_with kf sch) gs.
-Definition conv_groups (sch : schema) := conv_groups_with (conv_field (s_strict sch)) sch.
+Definition conv_groups := conv_groups_with conv_field.
 
 Definition check_order (sch : schema) (ord : list (bytes * bool)) : res unit :=
   if forallb (fun o => col_exists sch (fst o)) ord then Ok tt else Err ENoField.
@@ -522,8 +515,8 @@ Definition engine_search (st : state) (q : query) (off : N) : res (list lrow) :=
 (* SPEC: the same query evaluated on the stored JSON payloads                                   *)
 Definition spec_conv (t : ftype) (v : jv) : res cv :=
   match t, v with
-  | TInt, JNum n => Ok (CDbl n)      (* the number itself, not its int64 cast *)
-  | _, _ => conv_field false t v
+  | TInt, JNum n => if int_exactb n then Ok (CDbl n) else Err EUnexpected   (* the number itself *)
+  | _, _ => conv_field t v
   end.
 Definition spec_val (sch : schema) (r : lrow) (name : bytes) : cv :=
   if bytes_eqb name (s_id sch) then CBlob (l_id r)
@@ -550,36 +543,12 @@ Definition tuple_of (sch : schema) (cols : list bytes) (id : bytes) (r : row) : 
 Definition tuple_eqb (nz : bool) (a b : list cv) : bool :=
   list_eqb (fun x y => match cv_kcmp nz x y with Eq => true | _ => false end) a b.
 
-(* did document d ever hold tuple t (an index entry (t, d_id) was written) *)
-Definition ever_had (sch : schema) (cols : list bytes) (t : list cv) (d : drec) : bool :=
-  existsb (fun v => match v with VPut _ r => tuple_eqb (s_nz sch) (tuple_of sch cols (d_id d) r) t | VDel => false end)
-          (d_vers d).
 Definition holds_now (sch : schema) (cols : list bytes) (t : list cv) (d : drec) : bool :=
   match cur d with Some l => tuple_eqb (s_nz sch) (tuple_of sch cols (l_id l) (l_row l)) t | None => false end.
-(* the entry with the smallest document id among those ever written under t *)
-Fixpoint first_entry (sch : schema) (cols : list bytes) (t : list cv) (ds : list drec) (best : option drec) : option drec :=
-  match ds with
-  | [] => best
-  | d :: r =>
-      if ever_had sch cols t d then
-        match best with
-        | Some b => match bcmp (d_id d) (d_id b) with
-                    | Lt => first_entry sch cols t r (Some d)
-                    | _ => first_entry sch cols t r best
-                    end
-        | None => first_entry sch cols t r (Some d)
-        end
-      else first_entry sch cols t r best
-  end.
-(* doUpsert: `getWithPrefix(value prefix)` looks at the FIRST key under the prefix only and reports
-   "not found" when that entry is a tombstone; true = the write is admitted *)
+(* doUpsert (existsLiveKeyWithPrefix): every live entry under the value prefix counts;
+   true = the write is admitted *)
 Definition uniq_check1 (sch : schema) (cols : list bytes) (t : list cv) (all : list drec) : bool :=
-  if s_uf sch then
-    match first_entry sch cols t all None with
-    | None => true
-    | Some d => negb (holds_now sch cols t d)
-    end
-  else negb (existsb (holds_now sch cols t) all).   (* every live entry under the value counts *)
+  negb (existsb (holds_now sch cols t) all).
 
 Definition find_doc (ds : list drec) (id : bytes) : option drec :=
   find (fun d => bytes_eqb (d_id d) id) ds.
@@ -631,7 +600,7 @@ Definition with_id (sch : schema) (doc : jv) (id : bytes) : jv :=
 (* one upsert inside a transaction (upsertDocuments + doUpsert) *)
 Definition upsert1 (st : state) (is_insert : bool) (id : bytes) (payload : jv) (pd : pending)
   : res (state * pending) :=
-  do r <- gen_row (s_strict (st_sch st)) (s_fields (st_sch st)) payload;
+  do r <- gen_row (s_fields (st_sch st)) payload;
   if is_insert && match find_doc (st_docs st) id with Some _ => true | None => false end then Err EExists
   else match uniq_checks st is_insert id r pd with
        | Some pd' => Ok (mkst (st_sch st) (put_version (st_docs st) id (VPut payload r)), pd')
@@ -687,25 +656,6 @@ Inductive out :=
 | XGet (rev : N) (payload : jv)
 | XAudit (l : list (N * option jv)).
 
-(* CreateIndexStmt "check table is empty": the FIRST key of the primary index is read; a tombstone
-   there reads as "not found" = empty *)
-Fixpoint first_doc (ds : list drec) (best : option drec) : option drec :=
-  match ds with
-  | [] => best
-  | d :: r => match best with
-              | Some b => match bcmp (d_id d) (d_id b) with
-                          | Lt => first_doc r (Some d)
-                          | _ => first_doc r best
-                          end
-              | None => first_doc r (Some d)
-              end
-  end.
-Definition first_doc_live (ds : list drec) : bool :=
-  match first_doc ds None with
-  | Some d => match cur d with Some _ => true | None => false end
-  | None => false
-  end.
-
 Definition index_eqb (cols : list bytes) (ix : index) : bool := list_eqb bytes_eqb cols (ix_cols ix).
 
 Fixpoint number_from (n : N) (vs : list version) : list (N * option jv) :=
@@ -745,14 +695,14 @@ Definition step (st : state) (o : op) : state * out :=
       end
   | OAddField name t =>
       if col_exists sch name || bytes_eqb name doc_blob then (st, XErr)
-      else (mkst (mksch (s_id sch) (s_fields sch ++ [mkf name t (s_next sch)]) (s_indexes sch) (s_next sch + 1) (s_fl sch))
+      else (mkst (mksch (s_id sch) (s_fields sch ++ [mkf name t (s_next sch)]) (s_indexes sch) (s_next sch + 1) (s_nz sch))
                  (st_docs st), XOk)
   | ORemoveField name =>
       match find_field sch name with
       | Some _ =>
           if existsb (fun ix => existsb (bytes_eqb name) (ix_cols ix)) (s_indexes sch) then (st, XErr)
           else (mkst (mksch (s_id sch) (filter (fun f => negb (bytes_eqb (f_name f) name)) (s_fields sch))
-                            (s_indexes sch) (s_next sch) (s_fl sch)) (st_docs st), XOk)
+                            (s_indexes sch) (s_next sch) (s_nz sch)) (st_docs st), XOk)
       | None => (st, XErr)
       end
   | OCreateIndex cols uniq =>
@@ -761,16 +711,15 @@ Definition step (st : state) (o : op) : state * out :=
       | _ =>
           if negb (forallb (col_exists sch) cols) || existsb (index_eqb cols) (s_indexes sch)
              || list_eqb bytes_eqb cols (primary_cols sch)
-             || (uniq && (if s_uf sch then first_doc_live (st_docs st)
-                          else match lives (st_docs st) with [] => false | _ => true end))
+             || (uniq && match lives (st_docs st) with [] => false | _ => true end)
           then (st, XErr)
-          else (mkst (mksch (s_id sch) (s_fields sch) (s_indexes sch ++ [mkix cols uniq]) (s_next sch) (s_fl sch))
+          else (mkst (mksch (s_id sch) (s_fields sch) (s_indexes sch ++ [mkix cols uniq]) (s_next sch) (s_nz sch))
                      (st_docs st), XOk)
       end
   | ODeleteIndex cols =>
       if existsb (index_eqb cols) (s_indexes sch)
       then (mkst (mksch (s_id sch) (s_fields sch) (filter (fun ix => negb (index_eqb cols ix)) (s_indexes sch))
-                        (s_next sch) (s_fl sch)) (st_docs st), XOk)
+                        (s_next sch) (s_nz sch)) (st_docs st), XOk)
       else (st, XErr)
   | OSearch q off | OCount q off =>
       match engine_matched st q with
@@ -802,11 +751,11 @@ Fixpoint run (st : state) (ops : list op) : state * list out :=
   end.
 
 (* CreateCollection *)
-Definition new_schema (fl : flags) (idname : bytes) (fs : list (bytes * ftype)) (ixs : list index) : schema :=
+Definition new_schema (nz : bool) (idname : bytes) (fs : list (bytes * ftype)) (ixs : list index) : schema :=
   mksch idname
         ((fix go (n : N) (l : list (bytes * ftype)) : list field :=
             match l with [] => [] | (nm, t) :: r => mkf nm t n :: go (n + 1) r end) 3 fs)
-        ixs (3 + N.of_nat (length fs)) fl.
+        ixs (3 + N.of_nat (length fs)) nz.
 Definition init (sch : schema) : state := mkst sch [].
 
 (* ------------------------------------------------------------------------------------------ *)
@@ -826,8 +775,9 @@ Definition uniq_okb (st : state) : bool :=
              (lives (st_docs st)))
     (s_indexes sch).
 
-Definition insert_or_read (o : op) : bool :=
+(* operations that leave the set of typed fields as it is *)
+Definition keeps_fields (o : op) : bool :=
   match o with
-  | OInsert _ | OSearch _ _ | OCount _ _ | OGet _ | OAudit _ _ _ _ => true
-  | _ => false
+  | OAddField _ _ | ORemoveField _ => false
+  | _ => true
   end.
